@@ -72,6 +72,9 @@ def _ops():
         ("emit.class_call", lambda S, T: _code(e.class_(S, emit_call=True, class_name="K"))),
         ("emit.function", lambda S, T: _code(e.function(S, function_name="f", function_type="static"))),
         ("emit.function_docs", lambda S, T: _code(e.function(S, function_name="g", function_type="self", inline_types=False, emit_as_kwonlyargs=False, emit_default_doc=True))),
+        # under the IR's own name and type, so that a carried body is re-emitted (get_internal_body matches on them)
+        ("emit.function_same", lambda S, T: _code(e.function(S, function_name=None, function_type=None))),
+        ("emit.argparse_same", lambda S, T: _code(e.argparse_function(S, function_name=None, function_type=None))),
         ("emit.argparse", lambda S, T: _code(e.argparse_function(S))),
         ("emit.argparse_doc", lambda S, T: _code(e.argparse_function(S, emit_default_doc=True, function_name="h"))),
         ("emit.docstring_rest", lambda S, T: e.docstring(S, docstring_format="rest")),
@@ -320,7 +323,7 @@ def run_check(prop, tier):
         nviol += len(new) - max_report
         lines.append("  (%d further distinct violation signatures not minimised)" % (len(new) - max_report))
     wall = time.monotonic() - t0
-    nops = 15
+    nops = 17
     cov = {
         "evaluations": stats["sequences"],
         "distinct_nontrivial": len(kinds),
@@ -352,7 +355,7 @@ def run_check(prop, tier):
 
 
 def _alphabet_names():
-    return [(n, None) for n in ["emit.class_", "emit.class_call", "emit.function", "emit.function_docs", "emit.argparse", "emit.argparse_doc", "emit.docstring_rest",
+    return [(n, None) for n in ["emit.class_", "emit.class_call", "emit.function", "emit.function_docs", "emit.function_same", "emit.argparse_same", "emit.argparse", "emit.argparse_doc", "emit.docstring_rest",
                                 "emit.docstring_numpydoc", "emit.docstring_google", "sync.composite", "parse.T", "parse.T_merge", "find_in_ast.T", "annotate_ancestry.T", "to_code.T"]]
 
 
